@@ -73,11 +73,12 @@ type ChainRow struct {
 
 // Tables is everything TLC exported.
 type Tables struct {
-	Modes  []ModeRow
-	Chains []ChainRow
-	Cmds   []string                 // C03Sites.CmdKinds
-	Vals   []map[string]interface{} // exported values (spec encoding)
-	Texts  []string                 // their texts (ToText)
+	Modes                   []ModeRow
+	Chains                  []ChainRow
+	Cmds                    []string                 // C03Sites.CmdKinds
+	Shapes, Kinds, Privates []string                 // SoyDirectives.ExprShapes, TemplateKinds, PrivateAttrs
+	Vals                    []map[string]interface{} // exported values (spec encoding)
+	Texts                   []string                 // their texts (ToText)
 }
 
 const canary = "é€\"\\\n<&>'"
@@ -115,6 +116,9 @@ func ExportTables(ctx *core.Ctx) *Tables {
 				Vals   []map[string]interface{} `json:"vals"`
 				Texts  []string                 `json:"texts"`
 				Cmds   []string                 `json:"cmds"`
+				Shapes []string                 `json:"shapes"`
+				Kinds  []string                 `json:"kinds"`
+				Privs  []string                 `json:"privates"`
 				Canary string                   `json:"canary"`
 			}
 			if err := d.Decode(&h); err != nil || h.Canary != canary {
@@ -122,6 +126,7 @@ func ExportTables(ctx *core.Ctx) *Tables {
 				return nil
 			}
 			t.Vals, t.Texts, t.Cmds = h.Vals, h.Texts, h.Cmds
+			t.Shapes, t.Kinds, t.Privates = h.Shapes, h.Kinds, h.Privs
 		case strings.HasPrefix(p, `{"mode"`):
 			var m ModeRow
 			if err := d.Decode(&m); err != nil {
@@ -439,6 +444,8 @@ func Run(ctx *core.Ctx) {
 		Grid(ctx, real, t, vals, off, y, errs)
 		MsgBundles(ctx, real, t, vals)
 		PrecedingCommands(ctx, t, vals, off, y)
+		ExprShapes(ctx, real, t, vals)
+		ExtraAttrs(ctx, t, vals, off, y)
 		RandomTraces(ctx, real, t, ctx.Pick(4000, 50000))
 	}
 	wg.Wait()
@@ -450,7 +457,8 @@ func Run(ctx *core.Ctx) {
 
 var devs = []string{"iwb_returns_input", "iwb_counts_escaped", "escaper_drops_apos", "callee_inherits", "truncate_cancels",
 	"escapehtml_keeps_autoescape", "nonstring_raw", "nl2br_unescaped", "ns_attr_ignored", "deprecated_contextual_unspecified",
-	"nonstring_input_raw", "placeholder_name_ignores_directives", "log_leaves_escaping_off"}
+	"nonstring_input_raw", "placeholder_name_ignores_directives", "log_leaves_escaping_off",
+	"arith_expr_unescaped", "kind_attr_turns_escaping_off"}
 
 // ModelCheck runs the reference model (must hold) and the deviations (each
 // must be rejected).
@@ -483,7 +491,7 @@ func ModelCheck(ctx *core.Ctx) {
 			if dev == "placeholder_name_ignores_directives" {
 				mode = "msgs"
 			}
-			if dev == "log_leaves_escaping_off" {
+			if dev == "log_leaves_escaping_off" || dev == "arith_expr_unescaped" || dev == "kind_attr_turns_escaping_off" {
 				mode = "cmds"
 			}
 			res, err := c16.RunTLC(ctx, core.TLCOpts{Module: "C03Model", Cfg: cfg03(dev, mode, 1), Workers: 1, Timeout: 5 * time.Minute, Label: "M1-dev-" + dev})
